@@ -8,7 +8,7 @@ from .common import last, ref_outcome, check_against_ref
 ID = "C07"
 BUDGET = {"quick": 1500, "thorough": 60000}
 RULE = ("arrays and objects of length 0..8 with arbitrary JSON elements, reached by a context path, a '../' path, a block "
-        "parameter, @root, a literal or a subexpression (lookup); each nested up to 4 deep and mixed with with/if/partials; "
+        "parameter, a block parameter behind '../' over a same-named field (model and crate compared), @root, a literal or a subexpression (lookup); each nested up to 4 deep and mixed with with/if/partials; "
         "0, 1 or 2 block parameters; bodies print this/@index/@key/@first/@last/@../index and the parameters with "
         "separators, and the second parameter where its JSON type matters (truthiness, eq with @index/@key, as an array index); oracle = reference renderer (concatenation over the elements in index / key order); non-trivial = "
         "at least one iteration happened; distinct by output")
@@ -84,7 +84,7 @@ def generate(rng, n, tier="quick"):
         i += 1
         c = coll(r)
         data = {"c": c, "o": {"c": c, "n": 5}, "w": {"x": 1}, "s": "str", "arr2": [c, c], "idx": ["i0", "i1", "i2", "i3", "i4", "i5", "i6", "i7", "i8"]}
-        prov = r.pick(["path", "up", "param", "root", "lit", "sub", "deep", "scalar"])
+        prov = r.pick(["path", "up", "param", "root", "lit", "sub", "deep", "scalar", "upparam"])
         arg_c = {"a": "path", "ups": 0, "root": False, "segs": ["c"]}
         wrap = lambda n_: [n_]
         if prov == "path":
@@ -103,6 +103,12 @@ def generate(rng, n, tier="quick"):
             ast = [each_node(r, {"a": "lit", "v": c}, r.range(0, 1))]
         elif prov == "sub":
             ast = [each_node(r, {"a": "sub", "h": "lookup", "args": [{"a": "path", "ups": 0, "root": False, "segs": ["o"]}, {"a": "lit", "v": "c"}]}, r.range(0, 2))]
+        elif prov == "upparam":
+            # a block parameter spelled behind '../' while the enclosing context has a field of the same name (what the
+            # spelling means is not stated: crate and model are compared, the reference abstains)
+            data["pp"] = {"c": coll(r.fork("other"))}
+            inner = each_node(r, {"a": "param", "name": "pp", "segs": ["c"], "ups": r.pick([1, 1, 2])}, r.range(0, 1))
+            ast = [{"t": "each", "arg": {"a": "path", "ups": 0, "root": False, "segs": ["arr2"]}, "body": [{"t": "with", "arg": {"a": "path", "ups": 1, "root": False, "segs": ["o"]}, "body": [inner], "else": None, "bp": "pp"}, {"t": "text", "s": ";"}], "else": None, "bp": []}]
         elif prov == "deep":
             ast = [each_node(r, {"a": "path", "ups": 0, "root": False, "segs": ["arr2"]}, 2)]
         else:
